@@ -180,7 +180,7 @@ Definition dmn_spec (args : list val) : val :=
                memory / log / configuration clauses (C05, C09, C13, C14, C15) at once, and each property's own check must see it *)
             let ring_tag := if v =? 17 then "C17" else if v =? 28 then "C11,C17" else if negb (v =? 0) then "C11" else "" in
             let w := mwalk (minit nq maxq f) false steps obs in
-            let mem_tag := if w =? 0 then "" else if w =? 5 then "C05" else if w =? 35 then "C03,C05" else if w =? 9 then "C09" else if w =? 13 then "C13"
+            let mem_tag := if w =? 0 then "" else if w =? 5 then "C05" else if w =? 35 then "C03,C05" else if w =? 134 then "C13,C14" else if w =? 9 then "C09" else if w =? 13 then "C13"
                            else if w =? 15 then "C15" else if w =? 135 then "C13,C15" else "C14" in
             if String.eqb ring_tag "" && String.eqb mem_tag "" then VS "true"
             else if String.eqb ring_tag "" then VS (String.append "false:" mem_tag)
